@@ -1240,6 +1240,17 @@ impl World for FeesWorld {
                 self.claim_oracle(tr, &site, &pre, &post, o, &pays);
             }
         }
+        // nobody can make a user's share of a still claimable week disappear: `updateEnergyForUser` is open to anybody, so
+        // it must not move the progress of a user to whom the formula still owes something for a completed week
+        if ok && w[0] == "updateEnergy" {
+            let u = self.idx(w[1]);
+            let owed: Vec<(u64, Vec<(usize, BigUint)>)> = self.spec_claim(&pre, &post, u).into_iter().filter(|(_, ps)| !ps.is_empty()).collect();
+            if !owed.is_empty() && pre.progress[u] != post.progress[u] {
+                tr.fail("C10", "share_not_forfeitable", &site,
+                    &format!("updateEnergyForUser moved the claim progress of {} ({:?} -> {:?}) although the formula still owes it {:?}",
+                        self.name(u), pre.progress[u].as_ref().map(|x| x.0), post.progress[u].as_ref().map(|x| x.0), owed));
+            }
+        }
         self.oracles_after(tr, &site, &pre, &post, ok);
     }
 
